@@ -31,7 +31,8 @@ PROPS["C01"] = {
     "level": "proof", "harness": "C01", "driver": "C01",
     "rule": ("cases = generated configurations (YAML text through the real Parse -> Get -> WithDefaults -> Package pipeline) x 5 formats; contents: 12 entry shapes incl. globs, trees, "
              "symlinks, ghosts, rpm-only types, per-entry packager tags, 5 file_info shapes incl. setuid/sticky modes and per-entry mtimes, 4 umasks, every compression setting; "
-             "distinct = distinct YAML documents; non-trivial = at least two content entries"),
+             "distinct = distinct YAML documents; non-trivial = at least two content entries"
+             " Fixed shapes besides: special mode bits on files of 2.25 MiB, backslashes in names, one place under two spellings, a glob or tree followed by a config entry for one match, a user file at the deb changelog path, undated changelog, sub-second source mtimes without a package mtime, umask 0777 / 0700, owner names of 40 bytes; some sources owned by another user than the builder; per format a build that fails half way followed by an ordinary one; build-host variables (PACKAGER, DEBEMAIL ...) set in the process."),
     "trusted_base": PKG_TB,
     "assumptions": ["explicit modes are below 0o10000 (the generator's envelope)", "sources are not modified during a case"],
 }
@@ -57,14 +58,16 @@ PROPS["C03"] = {
     "level": "proof", "harness": "C03", "driver": "C03",
     "rule": ("cases = payload shapes at the edges (empty payload, total size 0 from symlinks/directories/empty files, files of 300 KiB and 2.25 MiB under every deb and rpm compression setting, "
              "trees, directories with their own mtime) plus generated configurations, x 5 formats from one parsed config; every stored digest and size is recomputed from the decoded bytes; "
-             "distinct = distinct YAML documents; non-trivial = at least two content entries"),
+             "distinct = distinct YAML documents; non-trivial = at least two content entries"
+             " The fixed shapes of C01 besides; a deb changelog next to fillers of eight sizes modulo 1024; per format a failing build followed by an ordinary one."),
     "trusted_base": PKG_TB + ["hash functions: Go crypto/md5, sha1, sha256 applied by the harness to decoded bytes"], "assumptions": [],
 }
 PROPS["C04"] = {
     "level": "proof", "harness": "C04", "driver": "C04",
     "rule": ("cases = names at the edges (dot-prefixed first components beside undotted siblings, names sorting before .PKGINFO, 10-level nesting, names beyond the ustar limits, non-ASCII names, entries at the root), control members whose size is 511/512/513/1024/4096 bytes, rpm payload archives (<= 64 KiB) re-encoded by the cpio container model (driver_summary.cpio_archives_reencoded counts them), "
              "plus generated configurations with every compression setting, x 5 formats; each package is read end to end by the independent decoders; "
-             "distinct = distinct YAML documents; non-trivial = at least two content entries"),
+             "distinct = distinct YAML documents; non-trivial = at least two content entries"
+             " Signed packages with dpkg-sig roles of 7 to 17 bytes and every debsign type."),
     "trusted_base": PKG_TB, "assumptions": [],
 }
 
@@ -107,7 +110,8 @@ PROPS["C06"] = {
     "rule": ("cases = (write) per generated configuration x format x signed/unsigned: the fault-free number W of destination writes, then EVERY k < W with the writer failing at write k in three variants (error once, short write + io.ErrShortWrite, error from k on); "
              "(refs) every file reference of a configuration (content sources incl. globs and trees, every script slot, changelog, key files) made unreadable one at a time, packaged with all five formats; "
              "(invalid) each invalid-setting class and a failing signing callback per format; (cli) the freshly built nfpm binary: success, missing source with absent / pre-existing / directory target, target a symlink to /dev/full. "
-             "distinct = distinct case descriptors; all count as non-trivial"),
+             "distinct = distinct case descriptors; all count as non-trivial"
+             " Each file reference is also removed IN PLACE after builds that read it, and replaced by a directory; invalid classes include an epoch beyond 32 bits and empty key files (a panic counts as no error)."),
     "trusted_base": PKG_TB + ["coq/Model/OutputProgs.v: the packagers' output stages transcribed as writer-stack programs (modelled, not verified); the number of writes zstd issues is a quantified parameter"], "assumptions": [],
 }
 PROPS["C07"] = {
@@ -115,7 +119,8 @@ PROPS["C07"] = {
     "rule": ("cases = generated configurations within the premise (package mtime and rpm build host fixed, unsigned; six entries in every map that reaches the output; trees, globs, per-entry mtimes, all compressors the generator picks), each built for all five formats: "
              "first pass; more than 1.2 s later again twice in-process, once in ANOTHER process under a rotating timezone (UTC+14 .. UTC-8) and GOMAXPROCS in {1,2,3,7,16}, and once with every file reference made absolute - all compared byte for byte; "
              "every timestamp decoded at every nesting level (ar, outer/control/data tar members, gzip headers, rpm build and file times, archlinux builddate, .MTREE) against {package mtime, declared entry mtimes, on-disk mtimes of the source trees}. "
-             "distinct = distinct configurations; all count as non-trivial"),
+             "distinct = distinct configurations; all count as non-trivial"
+             " Every fourth configuration takes its mtime from SOURCE_DATE_EPOCH (0, 1, a usual value); dated and undated changelog entries; every configuration builds in every format (see coverage_floors)."),
     "trusted_base": PKG_TB + ["translators/nondet.go: syntactic scan for clock / host / process / environment / CPU-count / randomness reads and map iterations (map-typed expressions recognised through declarations, not through type checking)"], "assumptions": [],
 }
 PROPS["C10"] = {
@@ -123,7 +128,8 @@ PROPS["C10"] = {
     "rule": ("cases = generated payloads/metadata (incl. deb compressions gzip/xz/zstd/none) x signing variants: deb debsign and dpkg-sig with armored/binary, protected/unprotected, subkey-only and key-id-selected keys and every signature type; rpm with the same key kinds; apk with PKCS#1, encrypted PEM and PKCS#8 keys and given/derived key names; "
              "recording callbacks for deb (both methods), rpm and apk; failing callbacks, wrong passphrases and an invalid signature type. Every signature is taken out of the package by the harness's own decoders and verified over the bytes taken from the package as stored - "
              "with go-crypto / crypto/rsa and independently with gpg --verify when gpg is installed; dpkg-sig manifests are compared line by line with the stored members; callbacks' bytes with the verifier's bytes; errors with errors.As / errors.Is. "
-             "distinct = distinct (configuration, variant); all count as non-trivial"),
+             "distinct = distinct (configuration, variant); all count as non-trivial"
+             " Also: callbacks that fail once, callback and key file together, key ids the key file does not hold, empty and symlinked key files."),
     "trusted_base": PKG_TB + ["ProtonMail/go-crypto (openpgp, clearsign), crypto/rsa and the gpg binary as verifiers; the private and public test keys under internal/sign/testdata"], "assumptions": [],
 }
 PROPS["C11"] = {
@@ -140,7 +146,8 @@ PROPS["C12"] = {
     "rule": ("cases = one child process per case, built with the Go race detector: (a) the five formats packaged concurrently from ONE parsed configuration, (b) every format twice from independently parsed configurations, (c) one format six times from independent configurations; "
              "GOMAXPROCS in {2,16} (thorough {1,2,4,8,16}), several rounds with randomised start offsets, generated configurations that all contain a tree, per-format umasks, override blocks and entries with and without file_info. "
              "Per goroutine: package bytes hash against the sequential result; per case: the race detector's reports. The model side: each packaging thread, run alone on the configuration's heap, writes only its own cells (premise of the interleaving theorem). "
-             "distinct = distinct (configuration, mode, formats, GOMAXPROCS); all count as non-trivial"),
+             "distinct = distinct (configuration, mode, formats, GOMAXPROCS); all count as non-trivial"
+             " Also several packagings of a 420-file tree at once; a child that does not finish within 150 s is a failure."),
     "trusted_base": CFG_TB + ["Go race detector (ThreadSanitizer runtime) for the accesses the model does not cover: goroutines inside pgzip/zstd, the packager registry, package-level state"], "assumptions": [],
 }
 PROPS["C13"] = {
@@ -155,7 +162,8 @@ PROPS["C16"] = {
     "level": "proof", "harness": "C16", "driver": "C16", "shrink_field": None, "exhaustive": True,
     "rule": ("cases = a document with EVERY key of the reflected configuration type set, with an unknown key and a one-edit misspelling injected at every mapping node (exhaustive over positions), generated configurations each with a random injection, "
              "edge documents (duplicate keys, empty override block, unknown override format, complex keys); one document exercising every string-valued path with ${..} references under 8 environments incl. all passphrase combinations, "
-             "and 20 os.Expand syntax corners; distinct = distinct documents; all count as non-trivial"),
+             "and 20 os.Expand syntax corners; distinct = distinct documents; all count as non-trivial"
+             " Every strict document is also read with ParseFile from .yaml and .json files; documents of 1.2 MiB; every expansion document also with no packager registered; values with glob characters and tildes."),
     "trusted_base": CFG_TB, "assumptions": [],
 }
 PROPS["C17"] = {
